@@ -11,8 +11,10 @@ import (
 	"path/filepath"
 	"runtime/debug"
 	"strings"
+	"time"
 
 	"github.com/google/uuid"
+	"github.com/semafind/semadb/conversion"
 	"github.com/semafind/semadb/diskstore"
 	"github.com/semafind/semadb/models"
 	"github.com/semafind/semadb/shard"
@@ -278,7 +280,11 @@ func runForced(family string, dir string, seed uint64) forcedResult {
 	if variant == "private" {
 		cacheSize = 0
 	}
-	e := newForcedEnv(dir, seed, 4)
+	degree := 4
+	if fam == "quiesce" {
+		degree = 8
+	}
+	e := newForcedEnv(dir, seed, degree)
 	n := 150 + e.rng.Intn(100)
 	e.open(-1)
 	e.seedPoints(n)
@@ -467,6 +473,175 @@ func runForced(family string, dir string, seed uint64) forcedResult {
 		if !found {
 			res.Threads = append(res.Threads, threadReport{Thread: "R", Class: "ok"})
 		}
+	case "quiesce":
+		// "After the writers finish … warm answers equal cold answers", with no overlap at all: one
+		// writer runs a delete-heavy history on a SPARSE part of the graph — points appended far
+		// apart behind the end of the line, one per batch, so that each hangs on its predecessor
+		// only; then runs of consecutive points are deleted (or moved) in one batch, mostly so that
+		// exactly one point survives behind the run. Such a survivor loses every inbound edge, a
+		// neighbour of a deleted node ends up without outgoing edges, and the entry node is not
+		// otherwise touched by the batch: the states of the graph cache that dense random data
+		// never reaches. The writer finishes; then searches run one after the other on the warm
+		// shared cache and must answer exactly like a fresh shard on a copy of the file.
+		c.Timeout = 60 * time.Second
+		var tail []uuid.UUID
+		tailX := map[uuid.UUID]float32{}
+		x, gap := float32(10*n+400), float32(400)
+		rounds := 7 + e.rng.Intn(6)
+		var steps []string
+		round := func(r int) string {
+			switch {
+			case len(tail) < 4 || e.rng.Intn(3) == 0:
+				id, d := e.newPoint(x, 0.5, 2000000+r)
+				if err := e.sh.InsertPoints([]models.Point{{Id: id, Data: encodeDoc(d)}}); err != nil {
+					return err.Error()
+				}
+				tail, tailX[id], e.docs[id] = append(tail, id), x, d
+				x, gap = x+gap, gap*1.6
+				steps = append(steps, "append")
+			default:
+				m := 2 + e.rng.Intn(2)
+				start := len(tail) - 1 - m
+				if e.rng.Intn(4) == 0 {
+					start = e.rng.Intn(len(tail) - m + 1)
+				}
+				run := append([]uuid.UUID{}, tail[start:start+m]...)
+				tail = append(tail[:start:start], tail[start+m:]...)
+				if e.rng.Intn(4) == 0 {
+					// move the run to the far end instead (a vector update is a delete and a re-insert)
+					var pts []models.Point
+					for _, id := range run {
+						d := cloneDoc(e.docs[id])
+						d[propVec], d[propFlat] = []float32{x, 0.5}, []float32{x, 0.5}
+						pts = append(pts, models.Point{Id: id, Data: encodeDoc(Doc{propVec: d[propVec], propFlat: d[propFlat]})})
+						tail, tailX[id], e.docs[id] = append(tail, id), x, d
+						x, gap = x+gap, gap*1.6
+					}
+					if _, err := e.sh.UpdatePoints(pts); err != nil {
+						return err.Error()
+					}
+					steps = append(steps, fmt.Sprintf("move%d@%d", m, start))
+				} else {
+					set := map[uuid.UUID]struct{}{}
+					for _, id := range run {
+						set[id] = struct{}{}
+						delete(e.docs, id)
+					}
+					if _, err := e.sh.DeletePoints(set); err != nil {
+						return err.Error()
+					}
+					steps = append(steps, fmt.Sprintf("delete%d@%d", m, start))
+				}
+			}
+			return ""
+		}
+		// the comparison itself: the warm shared cache against a fresh shard on a copy of the file
+		compare := func(qs []QSpec, warm []searchOut) (string, int) {
+			hits := 0
+			for i, w := range warm {
+				cold := e.coldAnswer("v1", qs[i])
+				hits += len(w.Hits)
+				if w.Err != "" || cold.Err != "" || hitsString(w.Hits) != hitsString(cold.Hits) {
+					e.notes = append(e.notes, fmt.Sprintf("after the writer finished its batches (%s), query %s: warm answer %.400s (err %q) ; cold answer (fresh shard on a copy of the file) %.400s (err %q)",
+						strings.Join(steps, ","), qs[i], hitsString(w.Hits), w.Err, hitsString(cold.Hits), cold.Err))
+					short := func(o searchOut) string {
+						if o.Err != "" {
+							return "error " + normErr(o.Err)
+						}
+						var ids []string
+						for _, h := range o.Hits {
+							ids = append(ids, h.Id.String()[:8]+"/"+h.Dist)
+						}
+						return fmt.Sprintf("%d hits [%s]", len(o.Hits), strings.Join(ids, " "))
+					}
+					return fmt.Sprintf("query %s: warm %s, fresh shard on a copy of the file %s", qs[i], short(w), short(cold)), hits
+				}
+			}
+			return "", hits
+		}
+		tailQueries := func(max int) []QSpec {
+			var qs []QSpec
+			for i := len(tail) - 1; i >= 0 && len(qs) < max; i-- {
+				qs = append(qs, QSpec{Kind: "vamana", X: tailX[tail[i]], Y: 0.5, K: 1}, QSpec{Kind: "vamana", X: tailX[tail[i]] + 1, Y: 0, K: 4})
+			}
+			return qs
+		}
+		// Every batch is its own writer; between two batches nothing runs, so each state in between
+		// is a state "after the writers have finished" — it is compared there and then (a later
+		// batch that happens to rewrite the entry node would repair on disk what an earlier one lost).
+		between := ""
+		for r := 0; r < rounds; r++ {
+			name := fmt.Sprintf("W%d", r)
+			c.Spawn(name, func() any { return round(r) })
+			must(c.RunUntil(name, "", 0), "done")
+			if w := c.byName[name]; w.res.Panic != "" || w.res.Val.(string) != "" {
+				e.notes = append(e.notes, fmt.Sprintf("%s failed: %v %v", name, w.res.Panic, w.res.Val))
+				res.Threads = append(res.Threads, threadReport{Thread: "W", Class: "other:error", Detail: normErr(fmt.Sprint(w.res.Panic, w.res.Val))})
+				break
+			}
+			if between == "" {
+				e.snapshot("v1")
+				qs := tailQueries(4)
+				var warm []searchOut
+				for _, q := range qs {
+					warm = append(warm, doSearch(e.sh, q))
+				}
+				if why, _ := compare(qs, warm); why != "" {
+					between = fmt.Sprintf("after batch %d (%s): %s", r, steps[len(steps)-1], why)
+				}
+			}
+		}
+		res.Extra["writer_steps"] = strings.Join(steps, ",")
+		e.snapshot("v1")
+		// final queries: at every surviving point of the sparse part (nearest 1 and nearest few), and across the junction
+		qs := append(tailQueries(12), QSpec{Kind: "vamana", X: float32(10 * n), Y: 0.5, K: 6}, QSpec{Kind: "flat", X: x, Y: 0.5, K: 3}, far(iA))
+		quiet := func(name string, qs []QSpec, extra string) threadReport {
+			c.Spawn(name, func() any {
+				var outs []searchOut
+				for _, q := range qs {
+					outs = append(outs, doSearch(e.sh, q))
+				}
+				return outs
+			})
+			so := c.RunUntil(name, "", 0)
+			th := c.byName[name]
+			tr := threadReport{Thread: name}
+			switch {
+			case so.Kind == "blocked" || !th.fin:
+				tr.Class = "blocked"
+			case th.res.Panic != "":
+				tr.Class, tr.Detail = "other:panic", normErr(th.res.Panic)
+				e.notes = append(e.notes, name+" panic: "+th.res.Panic)
+			default:
+				tr.Class = "ok"
+				why, hits := compare(qs, th.res.Val.([]searchOut))
+				tr.Hits = hits
+				if why == "" {
+					why = extra
+				}
+				if why != "" {
+					tr.Class, tr.Detail = "warm-cold-mismatch", why
+				}
+			}
+			return tr
+		}
+		res.Threads = append(res.Threads, quiet("R", qs[:1], ""), quiet("R2", qs[1:], between))
+		// how many points of the sparse part a search at their own position finds (cold): reachability
+		found := 0
+		for _, id := range tail {
+			if a := e.coldAnswer("v1", QSpec{Kind: "vamana", X: tailX[id], Y: 0.5, K: 1}); len(a.Hits) == 1 && a.Hits[0].Id == id {
+				found++
+			}
+		}
+		res.Extra["tail_points"], res.Extra["tail_points_found_cold"] = len(tail), found
+		// the committed entry node: more edges than it started with = stragglers were re-attached to it
+		e.sh.VerifDB().Read(func(bm diskstore.BucketManager) error {
+			b, err := bm.Get("index/" + models.IndexTypeVectorVamana + "/" + propVec)
+			if err == nil {
+				res.Extra["entry_node_edges_on_disk"] = len(b.Get(conversion.NodeKey(1, 'e'))) / 8
+			}
+			return nil
+		})
 	case "dangling":
 		// the documents a search returns are slices into bbolt's memory map; they are read by the
 		// caller after the read transaction has ended. A later batch that makes the file outgrow
